@@ -273,6 +273,12 @@ def _rank_regex(db, chk, tf, tm, ta):
     pats = [lit(c.args[0]) for c in ast.walk(f) if isinstance(c, ast.Call) and call_name(c) == "re.compile"]
     ok = pats == ['"rank":\\s+(\\d+)']
     chk.ob(rule, "rank discovery reads the number following '\"rank\":' and at least one whitespace", ok, tf.loc(f), found=pats, accepted=['"rank":\\s+(\\d+)'])
+    reads = [c for c in ast.walk(f) if isinstance(c, ast.Call) and isinstance(c.func, ast.Attribute) and c.func.attr in ("read", "readline", "readlines") and (c.args or c.keywords)]
+    line_loops = [n for n in ast.walk(f) if isinstance(n, ast.For) and isinstance(n.iter, ast.Name) and any(isinstance(c, ast.Call) and isinstance(c.func, ast.Attribute) and c.func.attr == "search" for c in ast.walk(n))]
+    whole = [c for c in ast.walk(f) if isinstance(c, ast.Call) and isinstance(c.func, ast.Attribute) and c.func.attr == "read" and not c.args and not c.keywords]
+    chk.ob(rule, "rank discovery searches the WHOLE file (line by line or a full read), not a bounded prefix", (bool(line_loops) or bool(whole)) and not reads, tf.loc(f),
+           found={"bounded reads": [ast.unparse(c) for c in reads], "line loops": len(line_loops)}, accepted="for line in f: ... rank_re.search(line)",
+           why="the rank field written by update_trace_rank / found after a large traceEvents array lies beyond any fixed prefix: the file silently falls back to rank 0")
     needs_space = bool(pats) and "\\s+" in pats[0]
     # every json.dump / json.dumps on the write path must use separators that put a space after ':'
     dumps = []
@@ -290,6 +296,20 @@ def _rank_regex(db, chk, tf, tm, ta):
         chk.ob(rule, f"{w}: serialisation leaves whitespace after ':' (default separators), so the written rank is found again", good if not needs_space or good is not None else None, w, found=src,
                accepted="json.dump(s) with the default key separator ': '", why="compact separators write \"rank\":3, which the reader's regular expression does not match: the file falls back to rank 0")
     chk.ob(rule, "json serialisation sites on the write path", len(dumps) >= 3, "hta", found=len(dumps), accepted=">= 3", nontrivial=False)
+    u0 = tf.func("update_trace_rank")
+    falsy = []
+    for n in walk_no_nested(u0):
+        if isinstance(n, (ast.If, ast.IfExp, ast.While)):
+            for x in ast.walk(n.test):
+                if isinstance(x, ast.UnaryOp) and isinstance(x.op, ast.Not) and H.name_id(x.operand) == "rank":
+                    falsy.append(ast.unparse(n.test))
+            if H.name_id(n.test) == "rank":
+                falsy.append(ast.unparse(n.test))
+        if isinstance(n, ast.BoolOp) and any(H.name_id(v) == "rank" for v in n.values[:-1]):
+            falsy.append(ast.unparse(n))
+    early = [r for r in walk_no_nested(u0) if isinstance(r, ast.Return)]
+    chk.ob(rule, "update_trace_rank rewrites the file for EVERY rank value (rank 0 included): no truthiness test on rank, no early return", not falsy and not early, tf.loc(u0),
+           found={"truthiness tests": falsy, "returns": len(early)}, accepted="read -> set rank -> write, unconditionally", why="`if not rank: return` makes re-numbering a file to rank 0 a no-op")
     ur = tf.func("update_trace_rank._add_rank_meta")
     t = ast.unparse(ur).replace(" ", "")
     chk.ob(rule, "update_trace_rank stores the rank under distributedInfo.rank (the key the reader searches)", "trace_data['distributedInfo']['rank']=rank" in t and "trace_data['distributedInfo']={'rank':rank}" in t, tf.loc(ur),
